@@ -63,7 +63,11 @@ func genSource(r *vh.Rng, data []byte, faults bool) *Source {
 	if faults {
 		tail = 1 + r.Pick(2)
 	}
-	return NewSource(SplitChunks(data, sizes), r.Chance(0.3), tail)
+	src := NewSource(SplitChunks(data, sizes), r.Chance(0.3), tail)
+	if faults && r.Chance(0.7) {
+		src.SetFaultKinds(FaultKinds[r.Pick(len(FaultKinds))], FaultKinds[r.Pick(len(FaultKinds))])
+	}
+	return src
 }
 
 func genCaps(r *vh.Rng, total int) []int {
